@@ -79,6 +79,11 @@ impl PartialEq<str> for IStr {
 
 impl Hash for IStr {
 	fn hash<H: Hasher>(&self, state: &mut H) {
+		#[cfg(jrsonnet_verif)]
+		if let Some(h) = verif::salted_hash(self.0.as_slice()) {
+			state.write_u64(h);
+			return;
+		}
 		// IStr is always obtained from pool, where no string have duplicate, thus every unique string has unique address
 		state.write_usize(Inner::as_ptr(&self.0).cast::<()>() as usize);
 	}
@@ -151,6 +156,11 @@ impl PartialEq for IBytes {
 
 impl Hash for IBytes {
 	fn hash<H: Hasher>(&self, state: &mut H) {
+		#[cfg(jrsonnet_verif)]
+		if let Some(h) = verif::salted_hash(self.0.as_slice()) {
+			state.write_u64(h);
+			return;
+		}
 		// IBytes is always obtained from pool, where no string have duplicate, thus every unique string has unique address
 		state.write_usize(Inner::as_ptr(&self.0).cast::<()>() as usize);
 	}
@@ -267,6 +277,62 @@ pub mod interop {
 		POOL.with_borrow_mut(|pool| {
 			let _ = mem::replace(pool, ptr);
 		});
+	}
+}
+
+/// Verification hooks, compiled only with `--cfg jrsonnet_verif`.
+///
+/// Off by default; with the flag off this module does not exist and hashing
+/// is the production address hashing.
+#[cfg(jrsonnet_verif)]
+pub mod verif {
+	use std::cell::Cell;
+
+	use crate::POOL;
+
+	thread_local! {
+		static HASH_SALT: Cell<Option<u64>> = const { Cell::new(None) };
+	}
+
+	/// When a salt is set, `IStr`/`IBytes` hash by salted content instead of
+	/// by address, which makes iteration order of every hash map keyed by them
+	/// a deterministic function of (contents, salt).
+	///
+	/// Must only be changed while no such map is alive on this thread.
+	pub fn set_hash_salt(salt: Option<u64>) {
+		HASH_SALT.with(|s| s.set(salt));
+	}
+	#[must_use]
+	pub fn hash_salt() -> Option<u64> {
+		HASH_SALT.with(Cell::get)
+	}
+	/// Number of distinct strings currently held by this thread's pool.
+	#[must_use]
+	pub fn pool_len() -> usize {
+		POOL.with_borrow(|p| p.len())
+	}
+	/// Contents of the pool (sorted), for attributing leftovers.
+	#[must_use]
+	pub fn pool_contents() -> Vec<Vec<u8>> {
+		let mut out: Vec<Vec<u8>> =
+			POOL.with_borrow(|p| p.keys().map(|k| k.as_slice().to_vec()).collect());
+		out.sort();
+		out
+	}
+	pub(crate) fn salted_hash(bytes: &[u8]) -> Option<u64> {
+		let salt = HASH_SALT.with(Cell::get)?;
+		// FNV-1a over the contents, seeded by the salt, then a splitmix finalizer
+		let mut h = 0xcbf2_9ce4_8422_2325_u64 ^ salt;
+		for b in bytes {
+			h ^= u64::from(*b);
+			h = h.wrapping_mul(0x0000_0100_0000_01b3);
+		}
+		h ^= h >> 30;
+		h = h.wrapping_mul(0xbf58_476d_1ce4_e5b9);
+		h ^= h >> 27;
+		h = h.wrapping_mul(0x94d0_49bb_1331_11eb);
+		h ^= h >> 31;
+		Some(h)
 	}
 }
 
